@@ -24,7 +24,9 @@ QUICK_WORKERS = 4
 WORKERS = 14
 
 
-def run_history(ctx, seed):
+def run_history(ctx, seed, growth=False):
+    """growth=True: the stock id space (32768 ids, 300 pre-allocated) with more than 300 requests outstanding at once, so that
+    the connection has to grow its id set (the get_request_id slow path) - the small-id-space histories never reach it."""
     from sim.env import SimEnv
     from sim import world as W
     from sim.scen import Plan, Recorder, echoed_uid
@@ -33,6 +35,10 @@ def run_history(ctx, seed):
     proto = rng.choice([2, 3, 4, 4])
     K = rng.choice([6, 8, 12, 16])
     nreq = rng.randint(2, 40)
+    if growth:
+        proto = rng.choice([3, 4])
+        K = 2 ** 15
+        nreq = rng.choice([301, 302, 303, 310, 330, 420])
     ch = W.RandomChooser(random.Random(seed * 7 + 1), p_time=0.0, p_preempt=rng.choice([0.0, 0.1, 0.3]))
     env = SimEnv(ch, addresses=['127.0.0.1'])
     env.conn_class.max_in_flight = K
@@ -68,16 +74,20 @@ def run_history(ctx, seed):
                 conn.lock.hooks = [inv]
         for c in env.net.conns:
             hook_conn(c)
-        ch.p_time = rng.choice([0.0, 0.05, 0.15])
+        ch.p_time = 0.0 if growth else rng.choice([0.0, 0.05, 0.15])
         kinds = {}
         timeout = 1.0
         to_send = list(range(nreq))
-        fail_at = rng.randrange(nreq) if rng.random() < 0.2 else None
+        fail_at = rng.randrange(nreq) if (rng.random() < 0.2 and not growth) else None
+        if growth:
+            timeout = 600.0
         while to_send:
-            r = rng.random()
+            r = 0.0 if growth else rng.random()
             if r < 0.55:
                 uid = to_send.pop(0)
                 k = rng.choices(['rows', 'hold', 'late', 'silent'], [5, 4, 3, 1 if rng.random() < 0.5 else 0])[0]
+                if growth:
+                    k = 'hold' if (uid < 300 or rng.random() < 0.8) else 'rows'     # keep > 300 ids busy at once
                 kinds[uid] = k
                 plan.set(uid, {'rows': 'rows', 'hold': 'hold', 'late': 'hold', 'silent': 'silent'}[k])
                 rec.execute_async(session, uid, timeout=timeout)
@@ -200,7 +210,10 @@ def run(ctx):
             break
         seed = base + i
         try:
-            viol, harness, sig, info, hist = run_history(ctx, seed)
+            growth = (i % 12 == 5)
+            viol, harness, sig, info, hist = run_history(ctx, seed, growth=growth)
+            if growth:
+                ctx.count("histories_growing_the_id_set_beyond_300")
         except Exception as e:
             from sim.world import WorldHang, WorldLimit
             if isinstance(e, WorldLimit):
